@@ -22,7 +22,8 @@ DTYPES = [
 ]
 SUBBYTE = {"INT4": 4, "UINT4": 4, "FLOAT4E2M1": 4, "INT2": 2, "UINT2": 2}
 
-KINDS = [("np", 10), ("proto", 4), ("lazy", 3), ("packed", 2), ("ext", 4), ("bytesonly", 2), ("torch", 5)]
+KINDS = [("np", 10), ("proto", 4), ("lazy", 3), ("packed", 2), ("ext", 4), ("bytesonly", 2), ("torch", 5), ("np_view", 2)]
+# "np_view": a non-contiguous numpy view (transposed / strided / Fortran-ordered); its bytes are those of the C-ordered values
 # "lazy_fail": a LazyTensor whose evaluation raises (RuntimeError / MemoryError): a failure in the middle of the save that
 # is not an OSError and does not come from a file-system call; assigned to at most one tensor of ~8 % of the cases
 # what the torch exporter really hands over: onnx_ir.tensor_adapters.TorchTensor (its tofile() is a Python-level write)
@@ -205,7 +206,21 @@ def make_tensor(e: dict, sandbox: str):
     raw = _raw_bytes(dtype, shape, e["fill"])
     dt = ir.DataType[dtype]
     name = e.get("tensor_name", e["name"])
-    if kind == "np":
+    if kind == "np_view" and (dtype in SUBBYTE or len(shape) < 2 or 0 in shape):
+        kind = "np"
+    if kind == "np_view":
+        base = _np_array(dtype, shape, raw)            # the logical (C-ordered) values
+        how = e["fill"] % 3
+        if how == 0:
+            view = np.asfortranarray(base)             # same values, column-major storage
+        elif how == 1:
+            view = np.ascontiguousarray(base.T).T      # a transposed view of another buffer
+        else:
+            wide = np.zeros((shape[0], shape[1] * 2) + tuple(shape[2:]), dtype=base.dtype)
+            wide[:, ::2] = base
+            view = wide[:, ::2]                        # a strided view
+        t = ir.Tensor(view, dtype=dt, name=name)
+    elif kind == "np":
         t = ir.Tensor(_np_array(dtype, shape, raw), dtype=dt, name=name)
     elif kind == "bytesonly":
         # a Tensor whose backing object is not an ndarray: takes the file.write(tobytes()) branch
